@@ -298,6 +298,21 @@ func NewResolver(cfg *config.Config) *Resolver {
 	}
 	r.configuredRootKeys = slices.Clone(r.rootKeys)
 
+	// cfg.RootKeys is not the start-up trust set by itself: RFC 5011
+	// revocation is permanent, and the first AutoTA run only starts
+	// after the middleware chain is ready and the priming queries
+	// have returned. Until then queries would be validated against a
+	// revoked key a stale configuration still lists. Seed the live
+	// set with what that run will publish before its fetch, and with
+	// nothing when the tombstone store cannot be read.
+	if r.dnssec {
+		if _, _, anchors, err := r.loadTrustAnchors(); err != nil {
+			r.rootKeys = nil
+		} else {
+			r.rootKeys = anchors
+		}
+	}
+
 	// Initialize TCP connection pool if enabled
 	if cfg.TCPKeepalive {
 		r.tcpPool = NewTCPConnPool(
